@@ -98,6 +98,21 @@ def run(tier):
         rep.ok('R13.2')
     want = {(r, r) if BETA == 2 else tuple([r] * BETA): ALPHA}
     monomial = None
+    rep.rule('R13.10', 'a block opened by band_update_stats runs for a fixed positive time from now: its deadline is the current clock plus a constant (not the previous deadline plus a step, which lets late ticks close "blocks" of one Hello each)', floor=1)
+    NOW0 = ('sym', 'clock.ms.0', 1, 1 << 63)
+    spans = set()
+    for s2, _ in outs:
+        o = s2.objs['in:band']
+        if off('block_timeout_ts') is not None:
+            dl = s2.canon(mem.load_scalar(s2, o, C(off('block_timeout_ts')), ix.parse_type('unsigned long long')))
+            d_ = lin_of(dl).add(lin_of(NOW0), -1)
+            okd = d_.is_const() and d_.k > 0
+            rep.check(okd, 'R13.10', 'update|block-deadline', 'after the statistics update the block deadline is %s: not the current clock plus a positive constant - the length of the next '
+                      'block (and with it the r the formula is applied to) then depends on when earlier ticks happened' % short(dl), node=fnode, function='band_update_stats',
+                      sample={'block_deadline_minus_now': d_.k if okd else short(dl)})
+            if okd:
+                spans.add(d_.k)
+    rep.check(len(spans) <= 1, 'R13.10', 'update|block-length', 'blocks of different lengths %s are opened on different paths' % sorted(spans), node=fnode, function='band_update_stats')
     for s2, _ in outs:
         o = s2.objs['in:band']
         got = s2.canon(mem.load_scalar(s2, o, C(off('Ni')), ix.parse_type('unsigned int')))
